@@ -172,18 +172,18 @@ def planar_body(sx, S):
     from mouette import attributes as A
     F = S.F[0]
     n = len(F)
+    # star-shaped about its barycentre, counter-clockwise: every triangle (v_i, v_i+1, barycentre) turns left.  (Weaker than
+    # convexity; it is exactly the class on which a fan around the barycentre is the polygon's area.)
+    bx = sum(S.Q[v][0] for v in F) / n
+    by = sum(S.Q[v][1] for v in F) / n
     orient = []
-    # convex and counter-clockwise: EVERY triple of vertices taken in cyclic order turns left (consecutive triples alone would
-    # also admit star polygons that wind twice)
     for i in range(n):
-        for j in range(i + 1, n):
-            for k in range(j + 1, n):
-                a, b, c = S.Q[F[i]], S.Q[F[j]], S.Q[F[k]]
-                orient.append((b[0] - a[0]) * (c[1] - a[1]) - (b[1] - a[1]) * (c[0] - a[0]))
+        a, b = S.Q[F[i]], S.Q[F[(i + 1) % n]]
+        orient.append((b[0] - a[0]) * (by - a[1]) - (b[1] - a[1]) * (bx - a[0]))
     sx.assume(symx.And(*[o > 0 for o in orient]))
     shoelace = sum(S.Q[F[i]][0] * S.Q[F[(i + 1) % n]][1] - S.Q[F[(i + 1) % n]][0] * S.Q[F[i]][1] for i in range(n)) / 2
     Ar = A.face_area(S.mesh, persistent=False)
-    sx.check_eq(Ar[0], shoelace, "area of a planar convex polygon is its shoelace area", tol=1e-9)
+    sx.check_eq(Ar[0], shoelace, "area of a planar polygon (star-shaped about its barycentre) is its shoelace area", tol=1e-9)
 
 
 def angles_body(sx, S):
@@ -365,10 +365,11 @@ def obligations(tier):
     obs.append(Ob("cells-tet", with_setup("tet", cells_body), covers=COVERS, note="cell volume and barycentre"))
     obs.append(Ob("scaling-tri", scaling("tri"), covers=COVERS, note="scaling / translation of lengths and areas"))
     obs.append(Ob("scaling-tet", scaling("tet"), covers=COVERS, note="scaling / translation of volumes"))
+    obs.append(Ob("planar-penta", with_setup("penta", planar_body, planar=True), covers=COVERS, required=not q and False or q,
+                  note="planar pentagon area (star-shaped about the barycentre)"))
     if not q:
         obs.append(Ob("cells-tet2", with_setup("tet2", cells_body), covers=COVERS, note="two tetrahedra"))
         obs.append(Ob("planar-quad", with_setup("quad", planar_body, planar=True), covers=COVERS, required=False, note="planar convex quad area"))
-        obs.append(Ob("planar-penta", with_setup("penta", planar_body, planar=True), covers=COVERS, required=False, note="planar convex pentagon area"))
         obs.append(Ob("cotan-tri", with_setup("tri", cotan_body), covers=COVERS, required=False, note="cotangents (nested normalisations)"))
         obs.append(Ob("circum-tri", with_setup("tri", circum_body), covers=COVERS, required=False, note="circumcentres (nested normalisations)"))
         obs.append(Ob("normals-tri2", with_setup("tri2", normals_body), covers=COVERS, required=False, note="unit face normals, two triangles"))
